@@ -1,6 +1,7 @@
 import WuffsVerif.Common.Line
 import WuffsVerif.Model.Rac.ChunkReader
 import WuffsVerif.Model.Rac.ByteReader
+import WuffsVerif.Model.Rac.Dict
 /-! Line driver for C15 (lib/rac/chunk_reader.go).  Stateful; ops:
   case <label> <claimedSize> <hex>  -> ok dsize=<n> | err <class>     (new ChunkReader; DecompressedSize())
   dsize                             -> ok dsize=<n> | err <class>
@@ -13,6 +14,8 @@ import WuffsVerif.Model.Rac.ByteReader
   rseek <off> <whence>              -> ok <pos> | err <class>
   rrange <lo> <hi>                  -> ok | err <class>                (SeekRange)
   rclose                            -> ok | err <class>
+ racdict.Loader (Model/Rac/Dict.lean), one loader per `case` line:
+  dict <csLo> <csHi> <ctLo> <ctHi> <tTag>   -> ok <hex> | err invalid|eof|ueof
 -/
 open WuffsVerif WuffsVerif.Line WuffsVerif.Rac.ChunkReader
 open WuffsVerif.Rac.ByteReader (S openS toyCodec ReadOut)
@@ -21,6 +24,7 @@ structure DState where
   file : Option (File × Int) := none
   cr : Option Reader := none
   rs : Option S := none
+  dl : WuffsVerif.Rac.Dict.Loader := {}
 
 def showE (s : S) : Option WuffsVerif.Rac.Err → String
   | none => "ok"
@@ -47,7 +51,7 @@ def c15Step (st : DState) (l : List String) : DState × String :=
     | some c, some b =>
       let f := File.ofByteArray b
       let r := openReader f c
-      ({ file := some (f, c), cr := some r, rs := none }, showDSize r)
+      ({ file := some (f, c), cr := some r, rs := none, dl := {} }, showDSize r)
     | _, _ => ({}, "bad-op")
   | ["dsize"] =>
     match st.cr with
@@ -96,6 +100,18 @@ def c15Step (st : DState) (l : List String) : DState × String :=
       let (s', e) := s.Close
       ({ st with rs := some s' }, match e with | none => "ok" | some e => "err " ++ showE s' (some e))
     | none => (st, "bad-op")
+  | ["dict", a, b, c, d, t] =>
+    match st.file, a.toNat?, b.toNat?, c.toNat?, d.toNat?, t.toNat? with
+    | some (f, claimed), some a, some b, some c, some d, some t =>
+      let ch : Chunk := { dLo := 0, dHi := 0, cpLo := 0, cpHi := 0, csLo := a, csHi := b, ctLo := c,
+                          ctHi := d, sTag := 0, tTag := t, codec := 0 }
+      let (dl', res) := st.dl.load f claimed.toNat ch
+      ({ st with dl := dl' },
+        match res with
+        | .ok none => "ok -"
+        | .ok (some bs) => "ok " ++ toHex bs
+        | .error e => "err " ++ e.word)
+    | _, _, _, _, _, _ => (st, "bad-op")
   | ["valid", hex] =>
     match fromHexArr hex with
     | some b => (st, toString (nodeOf b).valid)
